@@ -3153,6 +3153,9 @@ class Trimesh(Geometry3D):
 
         # get metadata
         copied.metadata = copy.deepcopy(self.metadata)
+        # copy the per-face and per-vertex attributes
+        copied.face_attributes = copy.deepcopy(self.face_attributes)
+        copied.vertex_attributes = copy.deepcopy(self.vertex_attributes)
 
         # make sure cache ID is set initially
         copied._cache.verify()
